@@ -21,6 +21,7 @@ import Driver.Handshake
 import Driver.HandshakeAuth
 import Driver.X509Ext
 import Driver.GCMBytes
+import Driver.GCMTop
 import Driver.SessionState
 import Driver.SM2Codec
 open Gmsm
@@ -60,6 +61,9 @@ def dispatch (toks : List String) : String :=
     | some r => r
     | none =>
     match Driver.gcmBytesDispatch toks with
+    | some r => r
+    | none =>
+    match Driver.gcmTopDispatch toks with
     | some r => r
     | none =>
     match Driver.sessionStateDispatch toks with
